@@ -23,10 +23,11 @@ class Undecided(Exception):
 
 
 class Panic(Exception):
-    def __init__(self, kind, where, msg=None):
+    def __init__(self, kind, where, msg=None, site=None):
         self.kind = kind
         self.where = where
         self.msg = msg
+        self.site = site    # (function path, kind, ordinal among the function's terminators of that kind): line-free identity
 
 
 class Budget(Exception):
@@ -134,6 +135,7 @@ class Outcome:
         self.why = why
         self.assumed = []   # callee-returns assumptions, unknown asserts assumed to pass
         self.trace = []
+        self.site = None
         self.steps = 0
 
     def __repr__(self):
@@ -868,6 +870,7 @@ class Interp:
             out = Outcome('undecided', None, u.where, u.why)
         except Panic as p:
             out = Outcome('panic', p.kind, p.where, p.msg)
+            out.site = p.site
         except Budget as b:
             out = Outcome('budget', None, b.where)
         out.assumed = self.assumed
@@ -922,7 +925,7 @@ class Interp:
                     self.assert_observer(frame, t, c)
                 if isinstance(c, AInt) and c.is_const():
                     if c.lo != exp:
-                        raise Panic('assert:' + t['kind'], self.where(frame, t['span']))
+                        raise Panic('assert:' + t['kind'], self.where(frame, t['span']), site=self.site_of(body, bb, 'assert', t['kind']))
                 else:
                     self.assumed.append(('assert', t['kind'], self.where(frame, t['span'])))
                 bb = t['target']
@@ -934,6 +937,28 @@ class Interp:
                 raise Panic('unreachable', self.where(frame, t['span']))
             else:
                 raise Unsupported('terminator %s' % k)
+
+    @staticmethod
+    def site_of(body, bb, tkind, akind):
+        n = 0
+        for i, b in enumerate(body['blocks']):
+            tt = b['term']
+            if tt['t'] == tkind and tt.get('kind') == akind:
+                if i == bb:
+                    return (body['path'], akind, n)
+                n += 1
+        return (body['path'], akind, -1)
+
+    @staticmethod
+    def site_of_call(body, t):
+        n = 0
+        for b in body['blocks']:
+            tt = b['term']
+            if tt['t'] == 'call' and tt['target'] < 0:
+                if tt is t:
+                    return (body['path'], 'explicit', n)
+                n += 1
+        return (body['path'], 'explicit', -1)
 
     def switch(self, frame, t, d):
         if isinstance(d, AInt):
@@ -1026,7 +1051,7 @@ class Interp:
         if intr is not None:
             return intr(self, frame, t, path, rargs, args)
         if path.startswith('core::panicking::') or path.startswith('core::panic') or path in ('core::option::unwrap_failed', 'core::result::unwrap_failed', 'core::option::expect_failed'):
-            raise Panic('explicit', self.where(frame, t['span']), path)
+            raise Panic('explicit', self.where(frame, t['span']), path, site=self.site_of_call(frame.body, t))
         body = self.p.bodies.get(path)
         if body is not None:
             genv = self.bind_generics(body, rargs)
